@@ -182,6 +182,18 @@ def check_case(ctx, cs):
             ok, r = _try(ctx, "linalg.vector_magnitude", t2, small, lambda: linalg.vector_magnitude(list(a)))
             if ok and not close(r, math.sqrt(float(fr(pr["norm2"])))):
                 ctx.violate("linalg.vector_magnitude", t2, small, {"expected": math.sqrt(float(fr(pr["norm2"]))), "got": r})
+            # the norm is homogeneous: |s v| = s |v| for a very small and a very large power of two s (also through point_distance)
+            for s_ in (2.0 ** -40, 2.0 ** 40):
+                ok, r = _try(ctx, "linalg.vector_magnitude", t2 + ["scaled"], small, lambda: linalg.vector_magnitude([x * s_ for x in a]))
+                if ok and not close(r / s_, math.sqrt(float(fr(pr["norm2"])))):
+                    ctx.violate("linalg.vector_magnitude", t2 + ["scaled"], small, {"scale": s_, "expected": s_ * math.sqrt(float(fr(pr["norm2"]))), "got": r})
+                ok, r = _try(ctx, "linalg.point_distance", t2 + ["scaled"], small, lambda: linalg.point_distance([x * s_ for x in a], [0.0] * len(a)))
+                if ok and not close(r / s_, math.sqrt(float(fr(pr["norm2"])))):
+                    ctx.violate("linalg.point_distance", t2 + ["scaled"], small, {"scale": s_, "got": r})
+                if len(a) == len(b):
+                    ok, r = _try(ctx, "linalg.vector_dot", t2 + ["scaled"], small, lambda: linalg.vector_dot([x * s_ for x in a], list(b)))
+                    if ok and not close(r / s_, fr(pr["dot"])):
+                        ctx.violate("linalg.vector_dot", t2 + ["scaled"], small, {"scale": s_, "got": r})
     else:
         raise core.MachineryError("unknown op")
 
